@@ -345,6 +345,7 @@ func TestCheck(t *testing.T) {
 	phase("misc", h.miscPhase)
 	versions := []string{"0.13.2", "0.13.4", "0.14.0", "0.14.1"}
 	phase("reader", func() { h.storePhase(versions, ev.Pick(r, 3, 12)) })
+	phase("finalise", func() { h.finalisePhase(versions) })
 	var pats []int
 	for p := 0; p < 2187; p++ {
 		pats = append(pats, p)
